@@ -48,7 +48,7 @@ func (f *fakeRequester) NewResource(rid string, _ interface{}, _ func(interface{
 	f.got = "req new " + hx(rid) + " -"
 }
 func (f *fakeRequester) SetVersion(string) (string, error) { return "1.2.3", nil }
-func (f *fakeRequester) ProtocolVersion() int               { return 1999999 }
+func (f *fakeRequester) ProtocolVersion() int              { return 1999999 }
 
 func okTokByte(c byte) bool {
 	return c >= 33 && c <= 126 && c != '.' && c != '*' && c != '>' && c != '?'
